@@ -42,7 +42,10 @@ def _clone(node):
         return node
     new = type(node)()
     for k, v in node.__dict__.items():
-        if k == '_parent':
+        if k.startswith('_'):
+            # annotations of the analyses (parent links, caches): only the provenance mark is carried over, as it is
+            if k == '_from':
+                setattr(new, k, v)
             continue
         setattr(new, k, _clone(v))
     return new
